@@ -368,13 +368,12 @@ node_index(latnode_t **nodes, int n, latnode_t *x)
     return -1;
 }
 
+static void emit_lattice_fields(lattice_t *dag, lattice_t *dag2, int with_scores);
+
 static void
 cmd_lattice(const char *tag, int with_scores)
 {
     lattice_t *dag = decoder_lattice(d), *dag2;
-    latnode_iter_t *ni;
-    latnode_t **nodes;
-    int n = 0, i, first;
 
     fprintf(vt_out, "{\"e\":\"Lattice\",\"tag\":\"%s\",\"scored\":%d", tag, scored[1]);
     if (dag == NULL) {
@@ -382,6 +381,19 @@ cmd_lattice(const char *tag, int with_scores)
         return;
     }
     dag2 = decoder_lattice(d);
+    emit_lattice_fields(dag, dag2, with_scores);
+    fprintf(vt_out, "}\n");
+}
+
+/* ,"null":false,... of a lattice: nodes and links through the public iterators and, with_scores, best path and
+ * posteriors as the N-best / confidence code computes them */
+static void
+emit_lattice_fields(lattice_t *dag, lattice_t *dag2, int with_scores)
+{
+    latnode_iter_t *ni;
+    latnode_t **nodes;
+    int n = 0, i, first;
+
     for (ni = ps_latnode_iter(dag); ni; ni = ps_latnode_iter_next(ni))
         ++n;
     nodes = (latnode_t **)calloc(n + 1, sizeof(*nodes));
@@ -477,12 +489,11 @@ cmd_lattice(const char *tag, int with_scores)
             }
         }
     }
-    fprintf(vt_out, "}\n");
     free(nodes);
 }
 
 static void
-cmd_nbest(const char *tag, int max)
+cmd_nbest(const char *tag, int max, int with_after)
 {
     hyp_iter_t *nb = decoder_nbest(d);
     int n = 0, nmore = 0;
@@ -513,7 +524,19 @@ cmd_nbest(const char *tag, int max)
     fprintf(vt_out, "],\"more\":[");
     for (n = 0; n < nmore; ++n)
         fprintf(vt_out, "%s%d", n ? "," : "", (int)more[n]);
-    fprintf(vt_out, "],\"exhausted\":%s}\n", nb ? "false" : "true");
+    fprintf(vt_out, "],\"exhausted\":%s", nb ? "false" : "true");
+    if (with_after) {
+        /* the lattice as decoder_lattice() gives it NOW (after the N-best walk), with best path and posteriors
+         * computed again: the list must be a list of paths of this lattice, and the walk must not have upset it */
+        lattice_t *dag = decoder_lattice(d);
+        fprintf(vt_out, ",\"after\":{\"scored\":%d", scored[1]);
+        if (dag == NULL)
+            fprintf(vt_out, ",\"null\":true");
+        else
+            emit_lattice_fields(dag, decoder_lattice(d), 1);
+        fprintf(vt_out, "}");
+    }
+    fprintf(vt_out, "}\n");
     free(more);
 }
 
@@ -1495,9 +1518,10 @@ main(int argc, char *argv[])
                 return 3;
             cmd_lattice(tag, (int)a);
         } else if (!strcmp(cmd, "nbest")) {
-            if (sscanf(line, "%*s %63s %ld", tag, &a) != 2)
+            b = 0;
+            if (sscanf(line, "%*s %63s %ld %ld", tag, &a, &b) < 2)
                 return 3;
-            cmd_nbest(tag, (int)a);
+            cmd_nbest(tag, (int)a, (int)b); /* nbest <tag> <max> [1 = also dump the lattice afterwards] */
         } else if (!strcmp(cmd, "alignment")) {
             if (sscanf(line, "%*s %63s", tag) != 1)
                 return 3;
